@@ -15,6 +15,18 @@ tie to code: (a) byte equality of the model's text (driver op trans.java) with
              and analysed with the real `analyze_compiler_output`; a sample is compiled file by
              file (thorough: also in batches of 10/100/200) and the verdicts compared with the
              batch verdicts.
+structured  : (c) the hand-built IR family `harness/ir_family.py` (context x slot x probe + declaration shapes, built with
+             the real ast / types classes and a real Context; 21 673 members, 13 400 expressible): quick = a slice of 900
+             members that contains every probe (all call shapes: callee kind x fixed parameters x vararg element x 0/1/2
+             vararg values), every slot, every context and the program-level shapes, thorough = 5 000 (C02_FAMILY_THOROUGH=all
+             for the whole family).  Per member: by-value export unchanged by the translation, model text == real text
+             (also without package), javac accepts the real text when the member is a valid target program (members that
+             are well-formed IR but no Java, e.g. a literal as a statement, are text-compared only).  A text difference
+             starts a failing-input search: javac on the differing members and their neighbours in the family.
+coverage    : (d) `harness/cov_trans.py` (sys.monitoring, Python 3.12): calls per visit_* method, lines and both outcomes
+             of every conditional jump of src/translators/java.py, for the family, the random stream (pipeline plugin) and
+             their union; evidence key translator_coverage; the outcomes never taken must be in DEAD (11 outcomes that no
+             well-typed program reaches, each with its reason), anything else is logged as COVERAGE-GAP.
 failing input: a javac error in an emitted Main.java — replay = (seed, switches, stage) + file +
              javac message, signature = shape of the diagnostic ("java:<stage>:<construct>:<message>").
              A verdict that differs between batch sizes is a failing input of the batching clause.
